@@ -9,6 +9,7 @@ CONSTANTS
   RegisterFirst = FALSE
 INVARIANTS
   TypeOK
+  MutexOK
   OwnResult
   NoPanic
   NoLostWakeup
